@@ -28,6 +28,9 @@ def main():
     fast = "--fast" in sys.argv
     if fast:
         sys.argv.remove("--fast")
+    no_others = "--no-others" in sys.argv or os.environ.get("EVAL_NO_OTHERS") == "1"
+    if "--no-others" in sys.argv:
+        sys.argv.remove("--no-others")
     if sys.argv[1] == "--re":       # re-evaluate an entry already filed under /verif/seeded/<id>/
         new_id = sys.argv[2]
         d = os.path.join(HERE, "seeded", new_id)
@@ -74,7 +77,7 @@ def main():
         # other properties' checks must stay silent or may legitimately fire; record them too
         others = {}
         for p2 in ("C04", "C05", "C16"):
-            if p2 != prop and not fast:
+            if p2 != prop and not fast and not no_others:
                 r2, o2, e2 = sh([PY, os.path.join(HERE, "check.py"), p2, "--tier", tier, "--no-evidence", "--first"],
                                 env=dict(os.environ, VERIF_REPO=wt))
                 others[p2] = r2
